@@ -9,6 +9,12 @@ Proof. revert n; induction l; intros [|n] H; cbn; auto. inversion H; auto. Qed.
 Lemma is_nil_rev {A} (l : list A) : match rev l with [] => true | _ => false end = match l with [] => true | _ => false end.
 Proof. destruct l; cbn; auto. destruct (rev l); reflexivity. Qed.
 
+Lemma NoDup_snoc {A} (l : list A) x : NoDup l -> ~ In x l -> NoDup (l ++ [x]).
+Proof.
+  induction 1; cbn; intro N; [constructor; auto; constructor|].
+  constructor; [|apply IHNoDup; tauto]. rewrite in_app_iff. cbn. intros [?|[?|[]]]; [tauto | subst; tauto].
+Qed.
+
 Section Sim.
   Variable table : list evclass.
   Variable cap : nat.
@@ -119,9 +125,9 @@ Section Sim.
     change (req_of table (mk_ev i cls obj) <=? sp_level p) with (permitted table (sp_level p) (mk_ev i cls obj)).
     destruct (permitted table (sp_level p) (mk_ev i cls obj)) eqn:P; cbn; split; auto.
     - repeat split; auto.
+      + cbn. rewrite H5. apply push_closed_form; auto.
+      + cbn. apply Forall_app; split; auto.
     - repeat split; auto.
-      + rewrite H5. apply push_closed_form; auto.
-      + apply Forall_app; split; auto.
   Qed.
 
   (* ---------------------------------------------------------------- Tick *)
@@ -184,8 +190,8 @@ Section Sim.
     destruct (k0 =? sid) eqn:K.
     - apply Z.eqb_eq in K. subst k0. destruct (tick_other full i now r H1 H4) as [O1 O2]. rewrite Q in O1, O2. cbn in *.
       split.
-      + destruct os; cbn; [rewrite Z.eqb_refl; auto | auto].
-      + unfold outputs_of in *. rewrite filter_app, O1, app_nil_r.
+      + rewrite T. destruct os; cbn; [rewrite Z.eqb_refl; auto | auto].
+      + rewrite T. cbn [snd]. unfold outputs_of in *. rewrite filter_app, O1, app_nil_r.
         destruct (sess_tick_shape _ _ _ _ _ T) as [[-> | [rf [Hf ->]]] _]; auto. cbn.
         unfold belongs. rewrite (H3 rf Hf). cbn. rewrite Z.eqb_refl. reflexivity.
     - destruct (IH H2 H4) as [I1 I2]. split.
@@ -200,17 +206,18 @@ Section Sim.
     R (match os with Some s => fst (sess_tick 10 i now s) | None => None end) (fst (spec_step table cap sid i sp (Tick now)))
     /\ match os with Some s => snd (sess_tick 10 i now s) | None => [] end = snd (spec_step table cap sid i sp (Tick now)).
   Proof.
-    destruct os as [s|], sp as [p|]; cbn; try tauto.
+    destruct os as [s|], sp as [p|]; cbn [R spec_step fst snd]; try tauto.
     intros (H1 & H2 & H3 & H4 & H5 & H6).
     unfold sess_tick, respond, is_active, is_empty. rewrite H2, H3, H4, H5, is_nil_rev, rev_involutive.
     rewrite (content_all _ _ H6).
-    destruct (sp_req p) as [r|]; cbn [negb andb].
+    destruct (sp_req p) as [r|] eqn:Q; cbn [negb andb].
     - rewrite !andb_true_r.
       destruct (newest cap (ds (sp_window p))) as [|x q] eqn:N; cbn [negb nonempty orb].
-      + destruct (now - sp_accessed p >? sp_timeout p); cbn; split; auto; repeat split; auto; try (rewrite N; auto).
+      + rewrite andb_false_r.
+        destruct (now - sp_accessed p >? sp_timeout p); cbn; split; auto; repeat split; auto; try (rewrite N; auto); try congruence.
       + cbn. split; auto. repeat split; auto.
     - rewrite !andb_false_r, !andb_true_r. rewrite (Z.mul_comm (sp_timeout p) 10).
-      destruct (now - sp_accessed p >? 10 * sp_timeout p); cbn; split; auto. repeat split; auto.
+      destruct (now - sp_accessed p >? 10 * sp_timeout p); cbn; split; auto. repeat split; auto; try congruence.
   Qed.
 
   (* ---------------------------------------------------------------- Listen *)
@@ -293,7 +300,7 @@ Section Sim.
       { destruct (lookup sid' st) as [s0|] eqn:L; split.
         - rewrite replace_keys; auto.
         - apply replace_Forall; auto. eapply Forall_impl; [|exact HF]. intro. apply fut_ok_app.
-        - rewrite map_app. cbn. apply NoDup_app_1; auto. apply lookup_none_notin; auto.
+        - rewrite map_app. cbn. apply NoDup_snoc; auto. apply lookup_none_notin; auto.
         - apply Forall_app; split; [|constructor; auto]. eapply Forall_impl; [|exact HF]. intro. apply fut_ok_app. }
       split; [exact HG'|].
       destruct (Z.eq_dec sid' sid) as [->|Nq].
@@ -332,7 +339,7 @@ Section Sim.
       destruct (step_sim pre e r st st1 o1 sp HG HR S1) as (G1 & R1 & O1).
       destruct (spec_step table cap sid (List.length pre) sp e) as [sp1 so1] eqn:SS. cbn [fst snd] in *.
       replace (S (List.length pre)) with (List.length (pre ++ [e])) in * by (rewrite app_length; cbn; lia).
-      specialize (IH (pre ++ [e]) st1 st2 o2 sp1 G1 R1 Q).
+      specialize (IH (pre ++ [e]) st1 _ o2 sp1 G1 R1 Q).
       destruct (spec_from table cap sid (List.length (pre ++ [e])) sp1 r) as [sp2 so2] eqn:SF. cbn [snd] in *.
       unfold outputs_of in *. rewrite filter_app. rewrite O1. f_equal.
       rewrite <- app_assoc in IH. exact IH.
